@@ -19,7 +19,7 @@ Definition class_of (r : yres ys) : res unit :=
 (* tlb.Unmarshal(cell[0], s) on the parsed cells *)
 Definition vmstack_root (cells : list node) (r : nat) : res unit :=
   match unfold_at (length cells) cells r with
-  | Some t => class_of (yunmarshal [] (fun _ => true) 2 YVmStack (xtree_of_tree t))
+  | Some t => class_of (yunmarshal [] (fun _ => true) no_resolver 2 YVmStack (xtree_of_tree t))
   | None => Err EFrame
   end.
 
@@ -28,7 +28,7 @@ Definition vmstack_unmarshal_tl_full (b : bytes) : res unit := vmstack_after_tl 
 Lemma vmstack_root_np cells r : np (vmstack_root cells r).
 Proof.
   unfold vmstack_root. destruct (unfold_at _ cells r); [|exact I].
-  pose proof (yunmarshal_np [] (fun _ => true) 2 YVmStack (xtree_of_tree t)) as H. unfold ynp, class_of in *.
+  pose proof (yunmarshal_np [] (fun _ => true) no_resolver 2 YVmStack (xtree_of_tree t)) as H. unfold ynp, class_of in *.
   destruct (fst _); cbn in *; auto.
 Qed.
 
